@@ -192,10 +192,11 @@ type Registry struct {
 	recs  []*EntryRec
 	digs  map[string]int
 	ndigs int
+	orig  map[int]int // entry id -> digest id at first observation (the genuine object)
 }
 
 func NewRegistry(pool *Pool) *Registry {
-	return &Registry{pool: pool, ids: map[string]int{}, digs: map[string]int{}}
+	return &Registry{pool: pool, ids: map[string]int{}, digs: map[string]int{}, orig: map[int]int{}}
 }
 
 func (g *Registry) idLocked(c string) int {
@@ -225,12 +226,30 @@ func (g *Registry) IDs(cs []cid.Cid) []int {
 
 // Observe registers the attributes of an entry object the first time its CID
 // is seen with content; later sightings do not change the record (differences
-// in content show up in digests).
-func (g *Registry) Observe(e iface.IPFSLogEntry) int {
+// in content show up in digests).  The digest of the first object seen through
+// the log API (not through ObserveMeta) is remembered as the genuine one.
+func (g *Registry) Observe(e iface.IPFSLogEntry) int { return g.observe(e, true) }
+
+// ObserveMeta registers the attributes only (used for blocks decoded from the store).
+func (g *Registry) ObserveMeta(e iface.IPFSLogEntry) int { return g.observe(e, false) }
+
+func (g *Registry) observe(e iface.IPFSLogEntry, genuine bool) int {
 	g.mu.Lock()
 	defer g.mu.Unlock()
 	id := g.idLocked(e.GetHash().String())
 	rec := g.recs[id-1]
+	if genuine {
+		if _, ok := g.orig[id]; !ok {
+			d := Digest(e)
+			if did, ok := g.digs[d]; ok {
+				g.orig[id] = did
+			} else {
+				g.ndigs++
+				g.digs[d] = g.ndigs
+				g.orig[id] = g.ndigs
+			}
+		}
+	}
 	if rec.Seen {
 		return id
 	}
@@ -264,6 +283,13 @@ func (g *Registry) Cid(id int) string {
 	g.mu.Lock()
 	defer g.mu.Unlock()
 	return g.cids[id-1]
+}
+
+// OrigDig returns the digest id the entry had when first observed (0 if never).
+func (g *Registry) OrigDig(id int) int {
+	g.mu.Lock()
+	defer g.mu.Unlock()
+	return g.orig[id]
 }
 
 // DigID maps a digest string to a small integer.
@@ -362,23 +388,31 @@ func Digest(e iface.IPFSLogEntry) string {
 
 // RepState is what the trace modules call the observed state of a replica.
 type RepState struct {
-	Ents       []int  `json:"ents"`       // GetEntries() key order
-	Heads      []int  `json:"heads"`      // Heads() (sorted)
-	RawHeads   []int  `json:"rawheads"`   // RawHeads() key order
-	SnapHeads  []int  `json:"snapheads"`  // ToSnapshot().Heads
-	JSONHeads  []int  `json:"jsonheads"`  // ToJSONLog().Heads
-	Values     []int  `json:"values"`     // Values() key order
-	SnapValues []int  `json:"snapvalues"` // ToSnapshot().Values
-	Nidx       []int  `json:"nidx"`       // keys of the reverse index
-	Clk        int    `json:"clk"`
-	ClkW       int    `json:"clkw"`
-	Len        int    `json:"len"`
-	Digs       []int  `json:"digs"`    // digest ids aligned with Ents (objects held in the index)
-	GetDigs    []int  `json:"getdigs"` // digest ids of Get(hash) for every entry of Ents
-	VDigs      []int  `json:"vdigs"`   // digest ids aligned with Values
-	Ident      int    `json:"ident"`
-	Pure       bool   `json:"pure"`
-	Lid        string `json:"lid"`
+	Ents       []int    `json:"ents"`       // GetEntries() key order
+	Heads      []int    `json:"heads"`      // Heads() (sorted)
+	RawHeads   []int    `json:"rawheads"`   // RawHeads() key order
+	SnapHeads  []int    `json:"snapheads"`  // ToSnapshot().Heads
+	JSONHeads  []int    `json:"jsonheads"`  // ToJSONLog().Heads
+	Values     []int    `json:"values"`     // Values() key order
+	SnapValues []int    `json:"snapvalues"` // ToSnapshot().Values
+	Nidx       []int    `json:"nidx"`       // keys of the reverse index
+	Clk        int      `json:"clk"`
+	ClkW       int      `json:"clkw"`
+	Len        int      `json:"len"`
+	Digs       []int    `json:"digs"`    // digest ids aligned with Ents (objects held in the index)
+	GetDigs    []int    `json:"getdigs"` // digest ids of Get(hash) for every entry of Ents
+	VDigs      []int    `json:"vdigs"`   // digest ids aligned with Values
+	Ident      int      `json:"ident"`
+	Pure       bool     `json:"pure"`
+	Lid        string   `json:"lid"`
+	Bad        []BadRec `json:"bad"`      // tampered copies this replica holds (ground truth from the script)
+	OrigDigs   []int    `json:"origdigs"` // digest id each entry of Ents had when it was first observed
+}
+
+// BadRec names one tampered copy.
+type BadRec struct {
+	ID   int    `json:"id"`
+	Kind string `json:"kind"`
 }
 
 func keysToIDs(g *Registry, om iface.IPFSLogOrderedEntries) []int {
@@ -399,7 +433,7 @@ func keysToIDs(g *Registry, om iface.IPFSLogOrderedEntries) []int {
 // Project reads the state of l through its public accessors only (plus the
 // exported fields Clock / Next, which have no accessor).
 func Project(g *Registry, pool *Pool, l *ipfslog.IPFSLog, pure bool) RepState {
-	st := RepState{Pure: pure, Lid: l.GetID()}
+	st := RepState{Pure: pure, Lid: l.GetID(), Bad: []BadRec{}}
 	entries := l.GetEntries()
 	st.Ents = keysToIDs(g, entries)
 	st.Heads = keysToIDs(g, l.Heads())
@@ -442,6 +476,10 @@ func Project(g *Registry, pool *Pool, l *ipfslog.IPFSLog, pure bool) RepState {
 		} else {
 			st.GetDigs = append(st.GetDigs, g.DigID(Digest(got)))
 		}
+	}
+	st.OrigDigs = []int{}
+	for _, id := range st.Ents {
+		st.OrigDigs = append(st.OrigDigs, g.OrigDig(id))
 	}
 	st.VDigs = []int{}
 	for _, e := range vals.Slice() {
